@@ -1,6 +1,7 @@
 package config
 
 import (
+	"fmt"
 	"net/http"
 	"regexp"
 	"time"
@@ -197,6 +198,14 @@ type Custom struct {
 	PollInterval       time.Duration
 	NoRouteHTML        string
 	Timeout            time.Duration
+}
+
+// URL returns the address the custom back end is polled at.
+func (c Custom) URL() string {
+	if c.QueryParams != "" {
+		return fmt.Sprintf("%s://%s/%s?%s", c.Scheme, c.Host, c.Path, c.QueryParams)
+	}
+	return fmt.Sprintf("%s://%s/%s", c.Scheme, c.Host, c.Path)
 }
 
 type Tracing struct {
